@@ -18,7 +18,7 @@ ASSUME = [
 ]
 DAILY = ["1h", "1.5h", "1.6h", "2h", "2.5h", "3.5h", "4h"]
 WEEKLY = ["5h", "7.5h", "10h", "10.6h", "16h"]
-PLACES = ["res", "group", "task", "container", "restrict", "team", "groupteam", "midslot", "midslot-group", "teampre"]
+PLACES = ["res", "group", "grandgroup", "task", "container", "grandcontainer", "restrict", "team", "groupteam", "midslot", "midslot-group", "teampre"]
 HORIZONS = {
     # name: (start, dur, effort hours for a weekly 5h / daily 2h limit)
     "fits": ("2025-01-06", "3w"),
@@ -79,6 +79,14 @@ def to_spec(it):
         resources = [{"id": "grp", "limits": lim, "children": [r1, r2]}]
         x["effort"] = eff_min // 2
         tasks.append({"id": "y", "effort": eff_min // 2, "alloc": ["r2"]})
+    elif place == "grandgroup":
+        # the limit sits two levels above the booked leaves
+        resources = [{"id": "dept", "limits": lim, "children": [{"id": "grp", "children": [r1]}, {"id": "grp2", "children": [r2]}]}]
+        x["effort"] = eff_min // 2
+        tasks.append({"id": "y", "effort": eff_min // 2, "alloc": ["r2"]})
+    elif place == "grandcontainer":
+        x["effort"] = eff_min // 2
+        tasks = [{"id": "top", "limits": lim, "children": [{"id": "box", "children": [x]}, {"id": "box2", "children": [{"id": "y", "effort": eff_min // 2, "alloc": ["r2"]}]}]}]
     elif place == "task":
         x["limits"] = lim
     elif place == "container":
@@ -230,7 +238,7 @@ def run(ctx):
             sample_of=lambda it: {"mode B config": it, "distinguished slots": b_slots(it)}, timeout=600)
     common.vacuity_guard(ctx, st)
     cov = st.coverage(
-        "product universe: 6 horizons (fits, overruns the declared end, 14 months, year ends 2024/2026/2020) x 12 limit values x 10 placements "
+        "product universe: 6 horizons (fits, overruns the declared end, 14 months, year ends 2024/2026/2020) x 12 limit values x 12 placements "
         "x resolutions x ASAP/ALAP x competing task; states = distinct schedule observations; transitions = placements + bookings; "
         "non-trivial = the limit was reached in at least one day/week (it was binding). Mode B: for 32 configurations of the bare Limits "
         "object every history (depth <= 3, thorough 4) of booking attempts at the distinguished slots (first/last slot of a day, an ISO week, "
